@@ -49,3 +49,8 @@ claim("C03", "E1-bfs", "explicit-state BFS over the real BinArchive API with a l
       "From 6 initial archives every history up to depth 4 (5 thorough) over ~150 operations per state (allocate/deallocate/truncate with aligned, misaligned, out-of-range and overflowing arguments, both inclusive flags, writer-side allocate, annotation writes/deletes) is executed on a real BinArchive rebuilt for every transition; after each call acceptance, every observable, the re-parsed serialized image (which exposes pending c-strings) and equality with the image of the same content built from scratch are compared with the model. States are de-duplicated on the full content.",
       "Trusted: ref_bin.rs edit semantics (transcribed from the property statement). Archives above S_max=16/24 bytes are not expanded; the full alphabet is used below depth 3/4, relocation operations only at the last level.",
       "DESIGN.md §4 C03")
+
+claim("C04", "E2-enumerate + E1-bfs", "exhaustive accessor grid (sizes x endians x accessors x boundary addresses/lengths x value sets) plus explicit-state BFS over reader/writer cursor interleavings, both arithmetic builds",
+      "Grid: every typed, byte-range and annotation accessor at every address in 0..=size+2 and around 2^31, 2^32, isize::MAX and usize::MAX, lengths up to usize::MAX, all 256/65 536 values and NaN payloads, sizes 0..=9, both endiannesses, judged by u128 range arithmetic and an endian encode/decode oracle (≈10M cases per build). Cursor semantics: BFS to depth 4/5 over (archive, reader cursor, writer cursor) with every stream operation, seek/skip and interleaved positional calls compared against the positional model.",
+      "Trusted: the range/endianness oracle in c04.rs. Zero-length accesses and label accessors on the last three addresses are outside the statement (no-panic only).",
+      "DESIGN.md §4 C04")
